@@ -26,10 +26,14 @@ func (r c06Range) interval() (int64, int64) {
 	return f, l
 }
 
+// build makes the range from two Date values. Whether the caller has marked
+// the end date as the end of a range must not matter (NewDateRange does it):
+// the flag is set for every second range.
 func (r c06Range) build() gedcom.DateRange {
+	flag := (r.sy+r.sm+r.sd+r.ey+r.em+r.ed)%2 == 0
 	return gedcom.NewDateRange(
-		gedcom.Date{Day: r.sd, Month: time.Month(r.sm), Year: r.sy},
-		gedcom.Date{Day: r.ed, Month: time.Month(r.em), Year: r.ey, IsEndOfRange: true})
+		gedcom.Date{Day: r.sd, Month: time.Month(r.sm), Year: r.sy, IsEndOfRange: !flag && r.sd%3 == 0},
+		gedcom.Date{Day: r.ed, Month: time.Month(r.em), Year: r.ey, IsEndOfRange: flag})
 }
 
 var c06Mon = []string{"", "Jan", "Feb", "Mar", "Apr", "May", "Jun", "Jul", "Aug", "Sep", "Oct", "Nov", "Dec"}
